@@ -96,7 +96,7 @@ package gzip
 
 //@ func (*Reader).Read
 //@   requires grBase(z)
-//@   modifies *z, **z.decompressor, **z.r, p[*], extReads, peekErr, lastReadN, lastReadErr, rfErr, rfN, lastCrc, unixCalls, lastUnixSec, lastStdResetDictNil, lastByteErr, asmErrno, asmCalls
+//@   modifies *z, **z.decompressor, **z.r, p[*], extReads, srcConsumed, peekErr, lastReadN, lastReadErr, rfErr, rfN, srcMark, lastCrc, unixCalls, lastUnixSec, lastStdResetDictNil, lastByteErr, asmErrno, asmCalls
 //@   ensures[C07 C08 C15 sticky] old(z.err) != nil ==> n == 0 && err == old(z.err) && extReads == old(extReads)
 //@   ensures[C07 C15 err-recorded] err != nil && err != io.EOF ==> z.err == err
 //@   ensures[C07 n-in-range] 0 <= n && n <= len(p)
@@ -104,16 +104,21 @@ package gzip
 //@   ensures@5[C07 mismatch-is-error] err == ErrChecksum
 //@   ensures@4[C07 C15 trailer-cut] err != io.EOF && (rfErr == io.EOF ==> err == io.ErrUnexpectedEOF) && (rfErr != io.EOF ==> err == rfErr)
 //@   ensures@6[C08 eof-sticky] z.err == io.EOF
-//@   ensures@6[C07 size-checked] le32(z.buf[:], 4) == old(z.size) + uint32(n) || le32(z.buf[:], 4) == uint32(n)
+//@   ensures@6[C05 C08 stops-after-trailer] srcConsumed == srcMark
+//@   ensures@6[C06 C07 size-checked] le32(z.buf[:], 4) == uint32(old(z.size)) + uint32(n) || le32(z.buf[:], 4) == uint32(n)
+// the trailer is rejected only for a real mismatch: the CRC differs or the length field differs from the byte count
+// modulo 2^32 (written with conversions so that the clause keeps its meaning if the counter is widened)
+//@   ensures@5[C06 C07 mismatch-real] le32(z.buf[:], 0) != uint32(z.digest) || le32(z.buf[:], 4) != uint32(z.size)
+//@   ensures@5[C06 C07 count-mod-2^32] uint32(z.size) == uint32(old(z.size)) + uint32(n) || uint32(z.size) == uint32(n)
 //@   ensures@7[C07 C08 next-member] z.multistream && (err == io.EOF ==> rfN == 0 && rfErr == io.EOF)
 //@   ensures@3[C15 src-err] err != io.EOF
 //@   assert call Uint32 1 [C07 C15 trailer-read-ok] rfErr == nil && rfN == 8
 //@   assert call ReadFull 1 [C11 no-data-held] typeis(z.decompressor, *github.com/intel/fastgo/compress/flate.decompressor) ==> n == 0
-//@   loop 1 invariant grBase(z) && z.err == nil && 0 <= n && n <= len(p) && (z.size == old(z.size) || z.size == 0)
+//@   loop 1 invariant grBase(z) && z.err == nil && 0 <= n && n <= len(p) && (uint32(z.size) == uint32(old(z.size)) || uint32(z.size) == 0)
 
 //@ func (*Reader).readString
 //@   requires z.r != nil && brOK(z.r)
-//@   modifies z.buf, z.digest, *z.r, extReads, lastCrc, lastByteErr
+//@   modifies z.buf, z.digest, *z.r, extReads, srcConsumed, lastCrc, lastByteErr
 //@   ensures brOK(z.r)
 //@   ensures[C15 src-err] result1 != nil && result1 != ErrHeader ==> result1 == lastByteErr
 //@   ensures@1[C06 string-limit] i >= 512
@@ -122,7 +127,7 @@ package gzip
 
 //@ func (*Reader).readHeader
 //@   requires z.r != nil && brOK(z.r) && (typeis(z.decompressor, *github.com/intel/fastgo/compress/flate.decompressor) ==> ((z.decompressor.(*github.com/intel/fastgo/compress/flate.decompressor).rBuf != nil ==> brOK(z.decompressor.(*github.com/intel/fastgo/compress/flate.decompressor).rBuf)) && tabsOK(&z.decompressor.(*github.com/intel/fastgo/compress/flate.decompressor).state)))
-//@   modifies z.buf, z.digest, z.decompressor, **z.decompressor, **z.r, extReads, peekErr, rfErr, rfN, lastCrc, lastReadN, lastReadErr, unixCalls, lastUnixSec, lastStdResetDictNil, lastByteErr
+//@   modifies z.buf, z.digest, z.decompressor, **z.decompressor, **z.r, extReads, srcConsumed, peekErr, rfErr, rfN, srcMark, lastCrc, lastReadN, lastReadErr, unixCalls, lastUnixSec, lastStdResetDictNil, lastByteErr
 //@   ensures brOK(z.r) && same(z.r)
 //@   ensures[C13] err == nil ==> z.decompressor != nil && (typeis(z.decompressor, *github.com/intel/fastgo/compress/flate.decompressor) ==> rdFresh(z.decompressor.(*github.com/intel/fastgo/compress/flate.decompressor)) && z.decompressor.(*github.com/intel/fastgo/compress/flate.decompressor).rBuf == z.r)
 //@   ensures[C08] err == io.EOF ==> lastCrc == old(lastCrc) && rfN == 0
@@ -136,13 +141,13 @@ package gzip
 //@ func (*Reader).Reset
 //@   requires typeis(r, *bufio.Reader) ==> brOK(r.(*bufio.Reader))
 //@   requires typeis(z.decompressor, *github.com/intel/fastgo/compress/flate.decompressor) ==> ((z.decompressor.(*github.com/intel/fastgo/compress/flate.decompressor).rBuf != nil ==> brOK(z.decompressor.(*github.com/intel/fastgo/compress/flate.decompressor).rBuf)) && tabsOK(&z.decompressor.(*github.com/intel/fastgo/compress/flate.decompressor).state))
-//@   modifies *z, **z.decompressor, **r, extReads, peekErr, rfErr, rfN, lastCrc, lastReadN, lastReadErr, unixCalls, lastUnixSec, lastStdResetDictNil, lastByteErr
+//@   modifies *z, **z.decompressor, **r, extReads, srcConsumed, peekErr, rfErr, rfN, srcMark, lastCrc, lastReadN, lastReadErr, unixCalls, lastUnixSec, lastStdResetDictNil, lastByteErr
 //@   ensures[C13 fresh] result == nil ==> grBase(z) && z.err == nil && z.multistream && z.size == 0 && z.digest == 0
 //@   ensures[C13 C15] z.err == result
 //@   ensures[C05 C08 C13 src] typeis(r, *bufio.Reader) ==> z.r == r.(*bufio.Reader)
 
 //@ func NewReader
 //@   requires typeis(r, *bufio.Reader) ==> brOK(r.(*bufio.Reader))
-//@   modifies **r, extReads, peekErr, rfErr, rfN, lastCrc, lastReadN, lastReadErr, unixCalls, lastUnixSec, lastStdResetDictNil, lastByteErr
+//@   modifies **r, extReads, srcConsumed, peekErr, rfErr, rfN, srcMark, lastCrc, lastReadN, lastReadErr, unixCalls, lastUnixSec, lastStdResetDictNil, lastByteErr
 //@   ensures[C13 fresh] result1 == nil ==> result0 != nil && grBase(result0) && result0.err == nil && result0.multistream && result0.size == 0 && result0.digest == 0
 //@   ensures[C05 C08 src] result1 == nil && typeis(r, *bufio.Reader) ==> result0.r == r.(*bufio.Reader)
